@@ -226,6 +226,11 @@ def rule_c(ctx, idx, A):
             if okk:
                 ctx.hold("C01.c", "%s::super.execute" % w, mod.rel, n.lineno, "same-instance delegation to the base class body")
                 continue
+        if isinstance(n.value, ast.Call) and isinstance(n.value.func, (ast.Name, ast.Attribute)) and top is not None and top.name == "execute" and top.cls is not None and A.is_command_subclass(top.cls):
+            rc = idx.resolve(mod, n.value.func, fi)
+            if rc and rc[0] == "class" and A.is_command_subclass(rc[1]):
+                ctx.hold("C01.c", "%s::temporary.execute" % w, mod.rel, n.lineno, "the body of another command class evaluated on a temporary instance built on the spot: not a command of the program, nothing to memoise")
+                continue
         ctx.violate("C01.c", "%s::execute-reference" % w, mod.rel, n.lineno,
                     "`execute` is referenced outside Command.run and outside a super() delegation: %s — the memo guard is bypassed" % K.src(n))
     ctx.floor("C01.c", "references to .execute", sites, 7)
